@@ -132,11 +132,21 @@ def b1(cx):
         cx.need(len(calls) == 1, f"{spec}.to_nplike: np.frombuffer call not found")
         c = calls[0]
         buf, dt, cnt, off = get_arg(c, 0, "buffer"), get_arg(c, 1, "dtype"), get_arg(c, 2, "count"), get_arg(c, 3, "offset")
-        cx.need(None not in (buf, dt, cnt, off), f"{spec}.to_nplike: frombuffer arguments not recognised")
-        cnt_p = repr(lin.poly(cnt))
-        ok = norm(buf) == "self.buffer" and norm(dt) == "dtype" and lin.poly(off) == Poly.atom("offset") and cnt_p in ("np.prod(shape)", "numpy.prod(shape)", "math.prod(shape)")
-        cx.check(ok, c, construct=f"frombuffer(self.buffer, dtype={norm(dt)}, count={norm(cnt)}, offset={norm(off)})", detail="typed view of prod(shape) items starting at `offset`",
-                 bad_detail="view does not start at `offset` / cover prod(shape) items of `dtype` of self.buffer", sub="frombuffer")
+        if buf is not None and dt is not None and cnt is None and off is None and isinstance(buf, ast.Subscript) and isinstance(buf.slice, ast.Slice) and buf.slice.lower is not None and buf.slice.upper is not None:
+            # slice form: frombuffer(self.buffer[offset : offset + prod(shape)*itemsize], dtype)  (aliasing is rule B2's matter)
+            lo, hi = lin.poly(buf.slice.lower), lin.poly(buf.slice.upper)
+            ln = hi - lo
+            mons = [k for k in ln.t if k != ()]
+            shape_ok = len(ln.t) == 1 and len(mons) == 1 and ln.t[mons[0]] == 1 and len(mons[0]) == 2 and any("prod(shape)" in a for a in mons[0]) and any(("itemsize" in a and "dtype" in a) for a in mons[0])
+            ok = norm(buf.value) == "self.buffer" and norm(dt) == "dtype" and lo == Poly.atom("offset") and shape_ok
+            cx.check(ok, c, construct=f"frombuffer(self.buffer[{norm(buf.slice.lower)}:{norm(buf.slice.upper)}], dtype={norm(dt)})", nf=f"[{lo!r} : {lo!r} + {ln!r}]", detail="typed view of prod(shape) items starting at `offset`",
+                     bad_detail="view does not start at `offset` / cover prod(shape)*itemsize bytes of self.buffer", sub="frombuffer")
+        else:
+            cx.need(None not in (buf, dt, cnt, off), f"{spec}.to_nplike: frombuffer arguments not recognised")
+            cnt_p = repr(lin.poly(cnt))
+            ok = norm(buf) == "self.buffer" and norm(dt) == "dtype" and lin.poly(off) == Poly.atom("offset") and cnt_p in ("np.prod(shape)", "numpy.prod(shape)", "math.prod(shape)", "int(np.prod(shape))")
+            cx.check(ok, c, construct=f"frombuffer(self.buffer, dtype={norm(dt)}, count={norm(cnt)}, offset={norm(off)})", detail="typed view of prod(shape) items starting at `offset`",
+                     bad_detail="view does not start at `offset` / cover prod(shape) items of `dtype` of self.buffer", sub="frombuffer")
         # reshaped to the requested shape
         rs = [x for x in own_nodes(fn) if isinstance(x, ast.Call) and call_name(x) == "reshape"]
         cx.check(len(rs) == 1 and norm(rs[0].args[0] if rs[0].args else None) in ("*shape", "shape", "tuple(shape)"), fn if not rs else rs[0], detail="reshaped to `shape`", bad_detail="view is not reshaped to the requested shape", sub="reshape")
@@ -194,35 +204,76 @@ def _chain_calls(e):
     return list(reversed(names)), e
 
 
+def _alias_class(e, d, kind, depth=0):
+    """abstract copy/view classification of an expression over the native storage `self.buffer`
+    -> 'storage' (the storage object), 'view' (aliases the storage bytes), 'copy' (independent bytes), None (unknown)
+    table: slicing a bytearray copies, slicing / reshaping / viewing an ndarray (numpy, cupy) views, np.frombuffer(X)
+    aliases X (a view of the storage only if X is the storage or a view of it), copy/bytes/bytearray/tobytes/astype/
+    array/ascontiguousarray/get produce independent bytes."""
+    if depth > 8:
+        return None
+    if isinstance(e, ast.Name):
+        v = d.single(e.id)
+        return _alias_class(v, d, kind, depth + 1) if v is not None else None
+    if isinstance(e, ast.Attribute):
+        if norm(e) == "self.buffer":
+            return "storage"
+        if e.attr in ("data", "T"):
+            return _alias_class(e.value, d, kind, depth + 1)
+        return None
+    if isinstance(e, ast.Subscript):
+        b = _alias_class(e.value, d, kind, depth + 1)
+        if b == "storage":
+            return "copy" if kind == "bytearray" else "view"
+        return b  # subscript of a numpy view is a view; of a copy stays a copy
+    if isinstance(e, ast.Call):
+        fn = e.func
+        name = fn.attr if isinstance(fn, ast.Attribute) else (fn.id if isinstance(fn, ast.Name) else None)
+        recv_is_module = isinstance(fn, ast.Attribute) and isinstance(fn.value, ast.Name) and fn.value.id in ("np", "numpy", "cupy", "cp")
+        if name in ("copy", "tobytes", "astype", "get", "tolist", "asnumpy"):
+            return "copy"
+        if name in ("bytearray", "bytes", "array", "ascontiguousarray", "asarray", "copy") and (recv_is_module or isinstance(fn, ast.Name)):
+            # np.asarray / ascontiguousarray MAY return the argument itself; as the result of a primitive that must alias
+            # or must copy, "may copy" is not good enough either way: classify as copy for viewing, unknown for extracting
+            return "copy" if name in ("bytearray", "bytes", "array") else "maycopy"
+        if name == "frombuffer" and e.args:
+            b = _alias_class(e.args[0], d, kind, depth + 1)
+            return "view" if b in ("storage", "view") else b
+        if name in ("reshape", "view", "ravel", "squeeze", "transpose", "memoryview") and isinstance(fn, ast.Attribute) and not recv_is_module:
+            return _alias_class(fn.value, d, kind, depth + 1)
+        if name == "memoryview" and e.args:
+            return _alias_class(e.args[0], d, kind, depth + 1)
+        return None
+    return None
+
+
 @rule("B2", ["C13"], "extracting primitives return copies, viewing primitives alias the storage")
 def b2(cx):
     m = cx.m
-    COPYING = {"copy", "bytearray", "bytes", "tobytes", "get", "array"}
     for spec, kind in BUFS:
         cls = m.cls(spec)
         meths = m.methods(cls)
-        nb = meths["_new_buffer"]
-        for mname in ("to_native", "to_bytearray"):
+        for mname, want in (("to_native", "copy"), ("to_bytearray", "copy"), ("to_nplike", "view"), ("to_pointer_arg", "view")):
             fn = meths[mname]
+            d = Defs(fn)
             rs = _returns(fn)
-            cx.need(len(rs) == 1, f"{spec}.{mname}: single return expected")
-            chain, base = _chain_calls(rs[0].value)
-            base_is_slice = isinstance(base, ast.Subscript) and norm(base.value) == "self.buffer"
-            cx.need(base_is_slice, f"{spec}.{mname}: result is not derived from a slice of self.buffer")
-            copies = kind == "bytearray" or any(c in COPYING for c in chain)
-            cx.check(copies, rs[0], construct=f"{mname}: {short(rs[0].value)}", detail=f"{kind} storage: result is an independent copy ({'slice copies' if kind == 'bytearray' and not chain else '/'.join(chain)})",
-                     bad_detail=f"slicing {kind} storage yields a view: the extracted data aliases the buffer")
-        for mname in ("to_nplike", "to_pointer_arg"):
-            fn = meths[mname]
-            rs = _returns(fn)
-            cx.need(len(rs) == 1, f"{spec}.{mname}: single return expected")
-            chain, base = _chain_calls(rs[0].value)
+            cx.need(len(rs) >= 1, f"{spec}.{mname}: no return")
             if mname == "to_pointer_arg" and kind == "bytearray":
                 cx.note(rs[0], detail="bytearray slice is a copy (kernel pointer arguments use BufferNumpy storage)")
                 continue
-            bad = [c for c in chain if c in ("copy", "bytearray", "bytes", "tobytes", "get", "array", "astype", "ascontiguousarray")]
-            cx.check(not bad, rs[0], construct=f"{mname}: {short(rs[0].value)}", detail="typed view aliases the buffer bytes it covers",
-                     bad_detail=f"`{'/'.join(bad)}` makes a copy: writes through the view no longer reach the buffer")
+            for r in rs:
+                got = _alias_class(r.value, d, kind)
+                if got is None or (got == "maycopy"):
+                    if got == "maycopy" and want == "view":
+                        cx.bad(r, construct=f"{mname}: {short(r.value)}", detail="the result may be a copy (asarray/ascontiguousarray copy whenever they have to): writes through the view then do not reach the buffer")
+                        continue
+                    raise AnalysisError(f"[B2] {spec}.{mname}: copy/view class of `{short(r.value)}` cannot be determined")
+                if want == "copy":
+                    cx.check(got == "copy", r, construct=f"{mname}: {short(r.value)}", nf=f"class = {got}", detail=f"{kind} storage: the extracted data is an independent copy",
+                             bad_detail=f"the result aliases the {kind} storage: later writes to the buffer change the extracted data (and the reverse)")
+                else:
+                    cx.check(got == "view", r, construct=f"{mname}: {short(r.value)}", nf=f"class = {got}", detail="typed view aliases the buffer bytes it covers",
+                             bad_detail=f"the result is a view of a COPY of the bytes ({'slicing a bytearray copies' if kind == 'bytearray' else 'a copying call is applied'}): writes through it never reach the buffer and later buffer writes are not seen")
 
 
 @rule("B3", ["C13", "C09"], "update_from_xbuffer: native copy only for equal contexts, otherwise bytearray round trip with the same arguments")
